@@ -211,6 +211,11 @@ def new_target(rng, t, kind, src):
         for _ in range(50):
             lin = np.eye(2) + rng.uniform(-0.2, 0.2, (2, 2))
             p = src @ lin.T + rng.uniform(-3, 3, 2) + rng.normal(scale=0.3, size=src.shape)
+            if rng.random() < 0.35:
+                # a few landmarks nudged along one axis only (a horizontal squeeze, one point dragged sideways)
+                p = t.target.points.astype(float).copy()
+                k = rng.integers(0, len(p), int(rng.integers(1, 4)))
+                p[k, rng.integers(0, 2)] += rng.uniform(-0.4, 0.4, len(k))
             a2, b2 = gen.tri_area2(src, tl), gen.tri_area2(p, tl)
             if (np.sign(a2) == np.sign(b2)).all() and np.abs(b2).min() > 1.0:
                 return ms.PointCloud(p)
